@@ -351,9 +351,9 @@ def run_shard(desc, ctx):
         ctx.mon('probe:repeater-stack-balanced')
         ctx.mon('probe:repeat-guard-monotone')
         if len(st.repeaters) != d0:
-            ctx.violation('probe:repeater-stack-unbalanced', {'probe': 'convert_statement'}, {'depth_in': d0, 'depth_out': len(st.repeaters)})
+            ctx.anomaly('probe:repeater-stack-unbalanced', {'probe': 'convert_statement', 'depth_in': d0, 'depth_out': len(st.repeaters)})
         if st.repeat_guard > g0:
-            ctx.violation('probe:repeat-guard-increased', {'probe': 'convert_statement'}, {'before': g0, 'after': st.repeat_guard})
+            ctx.anomaly('probe:repeat-guard-increased', {'probe': 'convert_statement', 'before': g0, 'after': st.repeat_guard})
         ctx.state('guard', 'depth=%d exhausted=%s' % (min(d0, 5), st.repeat_guard <= 0))
 
     def rn_return(frame, retval):
